@@ -240,7 +240,9 @@ def could_be_semilegal(kind, c, s, d, dst_free, ep=27):
     if piece == PAWN:
         straight = (s & 7) == (d & 7)
         if kind == 5:
-            return dst_free and ep is not None
+            # an en passant capture needs the mark on the pawn standing behind the destination
+            fwd_ = -8 if c <= 6 else 8
+            return dst_free and ep is not None and ep == d - fwd_
         return straight == dst_free
     if kind in (2, 3):
         return dst_free
@@ -266,28 +268,52 @@ def inference_rule(ctx, facts, rid, thorough=False):
             tree = fb.tree(fn, env=[("ref", mv), ("param", 2, "b")])
             bad = None
             reads_ep = "ep_source" in repr(tree)
+            from .machine import Machine, Stuck
+            fwd = -8 if C == WHITE else 8
+            ep_rank = 3 if C == WHITE else 4          # rank index of a pawn that has just double-stepped, seen by the side to move
             for c in cells:
-                for dst_free, ep in product((True, False), (None, 27)):
-                    def mem(pe_, te, c=c, dst_free=dst_free, ep=ep):
-                        if pe_[0] == "tbl" and show(pe_[1]).endswith("b.r.cells"):
+                for dst_free, epmode in product((True, False), ("none", "left", "right", "behind")):
+                    cur = {}
+
+                    def mem(pe_, te, c=c, dst_free=dst_free, cur=cur):
+                        t_ = show(unstamp(pe_)) if pe_[0] != "tbl" else ""
+                        if pe_[0] in ("tbl", "index") and show(unstamp(pe_[1])).endswith("b.r.cells"):
                             idx = te.ev(pe_[2])
                             if idx == te.syms["S"]:
                                 return c
                             if idx == te.syms["D"]:
                                 return 0 if dst_free else 13   # 13 = "some man", only tested for emptiness
-                        if pe_[0] == "field" and pe_[2] == "ep_source":
-                            # the kind of a move never depends on the en-passant mark: both states are tried
-                            return ("agg", "None", ()) if ep is None else ("agg", "Some", (ep,))
+                            if cur.get("ep") is not None and idx == cur["ep"]:
+                                return cell(1 - C, PAWN)
+                            return 0
+                        if pe_[0] == "downcast" and pe_[2] == "Some" and show(unstamp(pe_[1])).endswith("ep_source"):
+                            if cur.get("ep") is None:
+                                raise Unsupported("payload of an absent en-passant mark")
+                            return cur["ep"]
+                        if t_.endswith("ep_source"):
+                            # the kind of a move never depends on the en-passant mark: marks next to the source, behind the
+                            # destination and elsewhere are all tried
+                            return ("agg", "None", ()) if cur.get("ep") is None else ("agg", "Some", (cur["ep"],))
+                        if t_.endswith(".side"):
+                            return C
                         raise Unsupported("memory read " + show(pe_))
-                    te = TreeEval(facts, mem=mem, opaque=(B + "Move::new",))
+                    te = Machine(facts, tree, mem=mem)
+                    te.opaque = (B + "Move::new",)
                     try:
                         for s in range(64):
                             for d in range(64):
                                 if s == d:
                                     continue
-                                res = te.run(tree, {"S": s, "D": d})
+                                ep = {"none": None, "fixed": 8 * ep_rank + 3, "left": s - 1, "right": s + 1, "behind": d - fwd}[epmode]
+                                if ep is not None and (not (0 <= ep <= 63) or (ep >> 3) != ep_rank or ep in (s, d)):
+                                    continue          # not a mark a valid position can carry here
+                                cur["ep"] = ep
+                                te.reset()
+                                te.mem = mem
+                                te.syms = {"S": s, "D": d}
+                                res = te.start()
                                 total += 1
-                                v = res[1] if res else None
+                                v = res[1] if res and res[0] == "ret" else None
                                 if isinstance(v, tuple) and v[0] == "opaque":
                                     got = v[2][0]
                                     okargs = v[2][1:] == (c, s, d)
@@ -301,7 +327,7 @@ def inference_rule(ctx, facts, rid, thorough=False):
                                 eff_want = want if (isinstance(want, int) and could_be_semilegal(want, c, s, d, dst_free, ep)) else "rejected"
                                 if (eff_got != eff_want or not okargs) and bad is None:
                                     bad = (c, s, d, dst_free, got, want, ep)
-                    except (Unsupported, Panic) as e:
+                    except (Unsupported, Panic, Stuck) as e:
                         bad = (c, -1, -1, dst_free, "not evaluable: %r" % (e,), "")
                     if bad:
                         break
